@@ -42,12 +42,34 @@ func (f *Expand) Apply(inputs []tensor.Tensor) ([]tensor.Tensor, error) {
 		}
 	}
 
-	for axis := len(shape) - 1; axis >= 0; axis-- {
-		if input.Shape()[axis] != shape[axis] {
-			input, err = tensor.Repeat(input, axis, shape[axis])
-			if err != nil {
-				return nil, err
-			}
+	// Expand is a two-way broadcast of the input against the requested shape, both aligned
+	// at their last dimension. If the requested shape has fewer dimensions than the input,
+	// it is padded with ones at the front.
+	nDims := len(input.Shape())
+	targetShape := make([]int, nDims)
+
+	for axis := 0; axis < nDims; axis++ {
+		targetShape[axis] = 1
+		if offset := nDims - len(shape); axis >= offset {
+			targetShape[axis] = shape[axis-offset]
+		}
+	}
+
+	for axis := nDims - 1; axis >= 0; axis-- {
+		inputDim := input.Shape()[axis]
+		targetDim := targetShape[axis]
+
+		if inputDim == targetDim || targetDim == 1 {
+			continue
+		}
+
+		if inputDim != 1 {
+			return nil, ops.ErrIncompatibleDimensions()
+		}
+
+		input, err = tensor.Repeat(input, axis, targetDim)
+		if err != nil {
+			return nil, err
 		}
 	}
 
